@@ -537,6 +537,14 @@ class SArr:
         a, b = k
         rows = list(range(r))
         cols = list(range(c))
+        _arrlike = (SArr, _np.ndarray, list)
+        if isinstance(a, _arrlike) and isinstance(b, _arrlike):
+            ai, _ = _tolist(a)
+            bi, _ = _tolist(b)
+            if not (ai and isinstance(ai[0], bool)) and not (bi and isinstance(bi[0], bool)):
+                if len(ai) != len(bi):
+                    raise IndexError("shape mismatch: indexing arrays could not be broadcast together")
+                return SArr([self.items[concretize(i) * c + concretize(j)] for i, j in zip(ai, bi)], self.dtype)
         def pick(ix, idxs):
             if isinstance(ix, slice):
                 return idxs[self._norm_slice(ix, len(idxs))], False
@@ -1031,7 +1039,12 @@ def flatnonzero(a):
 
 
 def nonzero(a):
-    if _sym(a):
+    if _sym(a) or isinstance(a, SArr):
+        a = _A(a)
+        if a.ndim == 2:
+            r, c = a.shape
+            hit = [(i, j) for i in range(r) for j in range(c) if bool(_truthy(a.items[i * c + j]))]
+            return (_np.array([h[0] for h in hit], dtype=_np.intp).view(CArr), _np.array([h[1] for h in hit], dtype=_np.intp).view(CArr))
         return (flatnonzero(a),)
     return _wrap(_np.nonzero(a))
 
